@@ -24,7 +24,7 @@ RULE = ("a case places secret fields (aes / xor / best) at the root, in sub-sche
         "opens during dumps/loads contains no key file other than the expected ones, (4) a fresh configuration (new "
         "objects; 1 in 40 in a new process) loading the document gets every plaintext back; non-trivial = >= 2 "
         "non-empty secrets at >= 2 depths; distinct = distinct case content")
-REQUIRED = ("documents_scanned_for_tokens", "ciphertexts_decrypted_by_oracle", "keyfile_open_sets_checked",
+REQUIRED = ("layout:names-inherited-file", "documents_scanned_for_tokens", "ciphertexts_decrypted_by_oracle", "keyfile_open_sets_checked",
             "reloads_compared", "layout:root-ctor", "layout:root-attr", "layout:sub", "layout:ctype", "layout:default",
             "secrets_in_list_items", "rekey_after_first_use", "new_process_reloads")
 ASSUMPTIONS = ["only files under the sandbox root are considered; HOME is redirected so the default key file is sandboxed",
@@ -44,7 +44,14 @@ def generate(rng, ctx):
         "TI": rng.random() < 0.3,
         "existing": rng.random() < 0.5,
         "rekey": rng.random() < (0.4 if thorough else 0.3),
+        # a config type / sub-configuration that names the very file it would inherit anyway must still be pinned to it
+        "T_same": rng.random() < 0.25,
+        "a_same": rng.random() < 0.15,
     }
+    if layout["T_same"]:
+        layout["T"] = True
+    if layout["a_same"]:
+        layout["a"] = True
     methods = {p: rng.choice(["aes", "xor", "best"]) for p in POSITIONS}
 
     def secret(empty_ok=True):
@@ -86,7 +93,8 @@ def build_schema(cc, case, d):
     ts = cc.Schema()
     ts.s = cc.SecureField(method=m["t.s"])
     ts.inner.s = cc.SecureField(method=m["t.inner.s"])
-    T = cc.make_type(ts, "T", module="vf_types", key_filename=os.path.join(d, "T.key") if lay["T"] else None)
+    tkey = os.path.join(d, "root.key" if lay.get("T_same") else "T.key")
+    T = cc.make_type(ts, "T", module="vf_types", key_filename=tkey if lay["T"] else None)
     root.t = T
     item = cc.Schema()
     item.n = cc.IntField()
@@ -111,7 +119,7 @@ def make_config(cc, schema, case, d, rootkey="root.key", sub=True):
             cfg._key_filename = os.path.join(d, rootkey)
     if sub:
         if lay["a"]:
-            cfg.a._key_filename = os.path.join(d, "a.key")
+            cfg.a._key_filename = os.path.join(d, "root.key" if lay.get("a_same") else "a.key")
         if lay["ab"]:
             cfg.a.b._key_filename = os.path.join(d, "ab.key")
     return cfg
@@ -121,9 +129,9 @@ def expected_keys(case, d, default, rootkey="root.key", sub=True):
     """{position: key file path} by the nearest-ancestor rule."""
     lay = case["layout"]
     rk = os.path.join(d, rootkey) if lay["root"] else default
-    ak = os.path.join(d, "a.key") if (lay["a"] and sub) else rk
+    ak = os.path.join(d, "root.key" if lay.get("a_same") else "a.key") if (lay["a"] and sub) else rk
     abk = os.path.join(d, "ab.key") if (lay["ab"] and sub) else ak
-    tk = os.path.join(d, "T.key") if lay["T"] else rk
+    tk = os.path.join(d, "root.key" if lay.get("T_same") else "T.key") if lay["T"] else rk
     tik = os.path.join(d, "TI.key") if lay["TI"] else rk
     return {"s": rk, "lst": rk, "a.s": ak, "a.b.s": abk, "a.b.c.s": abk, "t.s": tk, "t.inner.s": tk, "items": rk,
             "titems": tik}
@@ -198,6 +206,8 @@ def run(case, ctx, res):
         res.count("layout:sub")
     if lay["T"] or lay["TI"]:
         res.count("layout:ctype")
+    if lay.get("T_same") or lay.get("a_same"):
+        res.count("layout:names-inherited-file")
     if case["values"]["items"] or case["values"]["titems"] or case["values"]["lst"]:
         res.count("secrets_in_list_items")
     positions = secret_positions(case["values"])
